@@ -107,6 +107,18 @@ Theorem C02_numbering_outside :
 Proof. exact numbering_outside. Qed.
 Print Assumptions C02_numbering_outside.
 
+(* the pieces put together on a family: `x$..$@..*n` (name = a literal and one numbering token) unrolls
+   to n elements named x<counter of copy 1> ... x<counter of copy n>, for every n >= 1, every width,
+   direction and start value *)
+Theorem C02_numbered_names :
+  forall (env : cenv) (lit num : token) (v : str) (size : N) (reverse : bool) (base n : N),
+    tk lit = TLiteral v -> tk num = TRepeaterNumber size reverse base 0 -> (1 <= n)%N ->
+    map an_name (unroll env [] (TElem (Some [lit; num]) None None (Some (mkRep n 0 false)) false [])) =
+    map (fun i => Some (v ++ pad (N.to_nat size) (str_of_Z (counter_value reverse base (i + 1) n))))
+        (nseq (N.to_nat n) 0%N).
+Proof. exact numbered_element_names. Qed.
+Print Assumptions C02_numbered_names.
+
 (* ---- guard_enough: budget >= total copies => same as unlimited *)
 Theorem C02_guard_enough :
   forall (env : cenv) (max_repeat : option N) (root : list tnode),
